@@ -104,7 +104,23 @@ func oracleOpts() flowOpts {
 	if verif.Choice("order", 2) == 1 {
 		o.modules = []string{"auth", "lock", "confirm", "otp", "recover"}
 	}
+	if verif.Thorough() {
+		// also the silent error handler and the full module set (remember, oauth2, register, logout hooks)
+		o.write500 = verif.Choice("write500", 2) == 1
+		if verif.Choice("modules-full", 2) == 1 {
+			o.modules = append(append([]string{}, o.modules...), "logout", "oauth2", "register", "remember")
+		}
+	}
 	return o
+}
+
+// oracleAccount: the known account of the comparison: the password account (quick), or either
+// account - the second one is an OAuth2 account that may have no password at all (thorough).
+func oracleAccount(f *flow) *acct {
+	if verif.Thorough() {
+		return f.a[verif.Choice("known-account", 2)]
+	}
+	return f.a[0]
 }
 
 // C16_LockedPasswordOracle: a correct and an incorrect password submitted to a locked, confirmed
@@ -113,7 +129,7 @@ func C16_LockedPasswordOracle() {
 	verif.ReplayInInterpreter()
 	api := verif.Choice("api", 2) == 1
 	t := newTwin(oracleOpts(), api)
-	a := t.f[0].a[0]
+	a := oracleAccount(t.f[0])
 	good := &world.Values{PID: a.pid, Password: verif.String("goodpw", 3), Remember: verif.Bool("rm")}
 	bad := &world.Values{PID: a.pid, Password: verif.String("badpw", 3), Remember: good.Remember}
 	verif.Assume(verif.And(a.hasPw, good.Password == a.pw))
@@ -146,7 +162,7 @@ func C16_RecoverExistence() {
 	verif.ReplayInInterpreter()
 	api := verif.Choice("api", 2) == 1
 	t := newTwin(oracleOpts(), api)
-	a := t.f[0].a[0]
+	a := oracleAccount(t.f[0])
 	known := &world.Values{PID: a.pid}
 	unknown := &world.Values{PID: verif.String("unknownpid", 4)}
 	verif.Assume(verif.And(unknown.PID != pid0, unknown.PID != pid1))
@@ -167,14 +183,16 @@ func C16_LoginExistence() {
 	api := verif.Choice("api", 2) == 1
 	route := []string{"POST /login", "POST /otp/login"}[verif.Choice("route", 2)]
 	t := newTwin(oracleOpts(), api)
-	a := t.f[0].a[0]
+	a := oracleAccount(t.f[0])
 	wrong := &world.Values{PID: a.pid, Password: verif.String("wrongpw", 3)}
 	unknown := &world.Values{PID: verif.String("unknownpid", 4), Password: wrong.Password}
 	verif.Assume(verif.And(unknown.PID != pid0, unknown.PID != pid1))
 	if route == "POST /login" {
 		verif.Assume(verif.Or(!a.hasPw, wrong.Password != a.pw))
 	} else {
-		verif.Assume(verif.And(wrong.Password != a.otps[0], wrong.Password != a.otps[1]))
+		for _, o := range a.otps {
+			verif.Assume(wrong.Password != o)
+		}
 	}
 	o1, p1 := t.run(0, route, wrong, api)
 	o2, p2 := t.run(1, route, unknown, api)
